@@ -1677,6 +1677,107 @@ class _Stepper:
             self.cv.notify_all()
 
 
+def _handover_obligation():
+    """source obligation: the hand-over fields of _HDF5RecorderThread (attributes assigned in __init__ and touched both
+    by the writer loop and by the public methods) are only read or written inside `with self._condition:`.
+    Returns (fields, list of violations)."""
+    src = (core.REPO / "qmi/data/hdf5recorder.py").read_text()
+    tree = ast.parse(src)
+    cls = [n for n in ast.walk(tree) if isinstance(n, ast.ClassDef) and n.name == "_HDF5RecorderThread"][0]
+    meths = {f.name: f for f in cls.body if isinstance(f, ast.FunctionDef)}
+
+    def touched(f):
+        return {n.attr for n in ast.walk(f) if isinstance(n, ast.Attribute) and isinstance(n.value, ast.Name) and n.value.id == "self"}
+    init = meths.get("__init__")
+    assigned = {t.attr for n in ast.walk(init) if isinstance(n, (ast.Assign, ast.AnnAssign))
+                for t in (n.targets if isinstance(n, ast.Assign) else [n.target])
+                if isinstance(t, ast.Attribute) and isinstance(t.value, ast.Name) and t.value.id == "self"} if init else set()
+    loop = _writer_ast_info()["method"]
+    writer_side = touched(meths[loop]) | (touched(meths["run"]) if "run" in meths else set())
+    public = [m for m in meths if m not in ("__init__", "run", loop, "_request_shutdown")]
+    client_side = set().union(*[touched(meths[m]) for m in public]) if public else set()
+    fields = sorted((assigned & writer_side & client_side) - {"_condition"})
+    bad = []
+
+    def walk(node, locked, mname):
+        if isinstance(node, ast.With) and any(isinstance(i.context_expr, ast.Attribute) and i.context_expr.attr == "_condition" for i in node.items):
+            for c in node.body:
+                walk(c, True, mname)
+            return
+        if isinstance(node, ast.Attribute) and isinstance(node.value, ast.Name) and node.value.id == "self" and node.attr in fields and not locked:
+            bad.append(f"{mname}: self.{node.attr} at line {node.lineno} is accessed outside `with self._condition:`")
+        for c in ast.iter_child_nodes(node):
+            walk(c, locked, mname)
+    for m, f in meths.items():
+        if m != "__init__":
+            walk(f, False, m)
+    return fields, bad
+
+
+class _ProducerGate:
+    """runs one client call (record / set_attribute) in a producer thread and parks it before its `index`-th source
+    line, provided the producer does not hold the condition lock there (parking inside the lock would only block
+    the writer, which the lock forbids anyway)"""
+
+    def __init__(self, codes, index, lock):
+        self.codes, self.index, self.lock = codes, index, lock
+        self.cv = threading.Condition()
+        self.count = 0
+        self.parked = False
+        self.go = False
+        self.finished = False
+        self.exc = None
+        self.holds_lock = False
+
+    def _global(self, frame, event, arg):
+        return self._local if frame.f_code in self.codes else None
+
+    def _local(self, frame, event, arg):
+        if event == "line":
+            i = self.count
+            self.count += 1
+            if i == self.index and not self.go and not self._mine_locked(frame):
+                with self.cv:
+                    self.parked = True
+                    self.cv.notify_all()
+                    while not self.go:
+                        if not self.cv.wait(WATCHDOG):
+                            raise _Hang("producer not resumed")
+                    self.parked = False
+        return self._local
+
+    def _mine_locked(self, frame):
+        # the producer holds the lock iff the lock is taken while the writer is parked outside its critical section;
+        # decided by the harness through `holds_lock_probe`
+        return self.holds_lock_probe() if hasattr(self, "holds_lock_probe") else False
+
+    def run(self, fn):
+        def body():
+            sys.settrace(self._global)
+            try:
+                fn()
+            except BaseException as e:  # noqa
+                self.exc = e
+            finally:
+                sys.settrace(None)
+                with self.cv:
+                    self.finished = True
+                    self.cv.notify_all()
+        self.thread = threading.Thread(target=body, daemon=True)
+        self.thread.start()
+
+    def wait_parked_or_finished(self):
+        with self.cv:
+            while not (self.parked or self.finished):
+                if not self.cv.wait(WATCHDOG):
+                    raise _Hang("producer neither parked nor finished")
+
+    def release(self):
+        with self.cv:
+            self.go = True
+            self.cv.notify_all()
+
+
 def _run_recorder(scn: dict):
     """scn = {"keep_open": bool, "schedule": [ ["W", n] | ["rec", d, [vals]] | ["recbuf", d, [vals], buf, off] |
     ["mut", buf] | ["attr", d, k, v] | ["close"] ]}
@@ -1722,6 +1823,20 @@ def _run_recorder(scn: dict):
             lines.append("r " + kind)
             outs.append(snap)
 
+    pending_call = None
+
+    def _log_call(kind, args):
+        # a producer's call has returned: it counts as made (the block was passed to the recorder before close())
+        if kind == "rec":
+            d, vals = args
+            recorded.setdefault(d, []).extend(vals)
+            lines.append(f"r rec {d} " + (",".join(map(str, vals)) or "-"))
+        else:
+            d, k, v = args
+            attrs_exp.setdefault(d, {})[k] = v
+            lines.append(f"r attr {d} {k} {v}")
+        outs.append(st.state_line())
+
     real_h5py = hr.h5py
     opens = [0]
 
@@ -1756,6 +1871,49 @@ def _run_recorder(scn: dict):
                         drain_events()
                         if not alive:
                             break
+                elif item[0] == "pcall":
+                    # a client call made by a producer thread, parked before its item[3]-th source line
+                    _, kind, args, idx = item
+                    guard = 0
+                    while thread._condition._lock.locked() and st.step():     # start it while the writer is outside its CS
+                        drain_events()
+                        guard += 1
+                        if guard > 2000:
+                            raise _Hang("writer never releases the lock")
+                    writer_locked = [False]
+                    pg = _ProducerGate({hr._HDF5RecorderThread.record.__code__, hr._HDF5RecorderThread.set_attribute.__code__}, idx,
+                                       thread._condition._lock)
+                    pg.holds_lock_probe = lambda: thread._condition._lock.locked() and not writer_locked[0]
+                    if kind == "rec":
+                        d, vals = args
+                        arr = np.array(vals, dtype=np.int64)
+                        pg.run(lambda: rec.record(f"d{d}", arr))
+                    else:
+                        d, k, v = args
+                        pg.run(lambda: rec.set_attribute(f"d{d}", f"k{k}", v))
+                    pg.wait_parked_or_finished()
+                    pending_call = (pg, kind, args)
+                    if pg.finished:
+                        pending_call = None
+                        _log_call(kind, args)
+                elif item[0] == "go":
+                    if pending_call is not None:
+                        pg, kind, args = pending_call
+                        pending_call = None
+                        pg.release()
+                        t0 = _time.monotonic()
+                        while not pg.finished:
+                            # the producer may now wait for the lock the (parked) writer holds: let the writer move on
+                            if thread._condition._lock.locked() and not st.done:
+                                st.step()
+                                drain_events()
+                            else:
+                                _time.sleep(0.0005)
+                            if _time.monotonic() - t0 > WATCHDOG:
+                                raise _Hang("producer call does not return")
+                        if pg.exc is not None:
+                            result["error"] = "client-call-raised:" + type(pg.exc).__name__
+                        _log_call(kind, args)
                 elif item[0] == "mut":
                     buffers[item[1]][:] = -7          # the caller reuses its buffer; no recorder call
                     if thread._condition._lock.locked():
@@ -1791,6 +1949,8 @@ def _run_recorder(scn: dict):
                         lines.append(f"r attr {d} {k} {v}")
                     outs.append(st.state_line())
                 elif item[0] == "close":
+                    if pending_call is not None:
+                        raise RuntimeError("schedule closes with a producer call still parked (missing 'go')")
                     closed = True
                     box = {}
 
@@ -1863,6 +2023,8 @@ def _run_recorder(scn: dict):
             hr._HDF5RecorderThread.run = orig_run
             hr.h5py = real_h5py
             threading.excepthook = old_hook
+            if pending_call is not None:
+                pending_call[0].release()
             st.release()
             if rec is not None and getattr(rec, "_recorder_thread", None) is not None:
                 try:
@@ -2061,12 +2223,34 @@ def _fixed_rec_schedules():
     return out
 
 
+def _handover_sweep_schedules(nrec_lines: int = 10, nwriter: int = 14):
+    """producer / writer hand-over: a producer thread is parked before every source line of record() / set_attribute()
+    while the writer is at every position of its wait-test / swap section, then the writer runs complete cycles
+    (swap, flush, clear) before the producer goes on"""
+    C = 70
+    out = []
+    for i in range(nrec_lines):
+        for k in range(nwriter):
+            out.append({"keep_open": False, "schedule": [["rec", 0, [1]], ["W", k], ["pcall", "rec", [0, [2, 3]], i], ["W", C], ["go"],
+                                                        ["W", 5], ["rec", 0, [4]], ["close"]]})
+        for keep in (False, True):
+            out.append({"keep_open": keep, "schedule": [["rec", 0, [1]], ["W", C], ["pcall", "rec", [0, [2]], i], ["W", C], ["W", C], ["go"],
+                                                        ["pcall", "rec", [1, [5]], i], ["W", C], ["go"], ["close"]]})
+            out.append({"keep_open": keep, "schedule": [["rec", 0, [1]], ["pcall", "attr", [0, 0, 9], i], ["W", C], ["go"], ["W", C],
+                                                        ["pcall", "attr", [0, 0, 8], i], ["rec", 0, [2]], ["W", C], ["go"], ["close"]]})
+            out.append({"keep_open": keep, "schedule": [["pcall", "rec", [0, [7]], i], ["go"], ["pcall", "rec", [0, [8]], i], ["W", 9], ["go"], ["close"]]})
+    return out
+
+
 def _shrink_rec(scn: dict, sig: str) -> dict:
     sched = list(scn["schedule"])
     i = 0
     while i < len(sched) - 1:
         cand = {**scn, "schedule": sched[:i] + sched[i + 1:]}
-        o = _recorder_oracle(_run_recorder(cand))
+        try:
+            o = _recorder_oracle(_run_recorder(cand))
+        except Exception:  # noqa  (e.g. a 'go' removed while its producer call is still parked)
+            o = None
         if o and o[0] == sig:
             sched = cand["schedule"]
         else:
@@ -2076,7 +2260,8 @@ def _shrink_rec(scn: dict, sig: str) -> dict:
 
 def _section_recorder(ctx: Ctx, res: Result, n_random: int, use_model=True, kmax=70, stride=1):
     rng = ctx.rng
-    scns = _fixed_rec_schedules() + _sweep_rec_schedules(kmax, stride) + [_gen_rec_schedule(rng) for _ in range(n_random)]
+    scns = _fixed_rec_schedules() + _handover_sweep_schedules() + _sweep_rec_schedules(kmax, stride) + \
+        [_gen_rec_schedule(rng) for _ in range(n_random)]
     all_lines, all_outs, spans = [], [], []
     for i, scn in enumerate(scns):
         r = _run_recorder(scn)
@@ -2159,6 +2344,12 @@ class C17(Prop):
         _section_api(ctx, res, ctx.scale(400, 6000))
         _section_race(ctx, res)
         ctx.log("D recorder")
+        fields, viol = _handover_obligation()
+        res.extra["recorder_handover_fields"] = fields
+        res.count("recorder_handover_fields", len(fields))
+        if viol or not fields:
+            res.broken.append(Broken("source-obligation", "hand-over fields of _HDF5RecorderThread only under `with self._condition:`",
+                                     "\n".join(viol) or "no hand-over field found", case={"kind": "handover-obligation"}))
         _section_recorder(ctx, res, ctx.scale(500, 9000), kmax=ctx.scale(70, 90))
         _section_recorder_faults(ctx, res)
         return res
